@@ -97,9 +97,15 @@ class MemFile(io.StringIO):
         return self._final if self._closed_flag else self.getvalue()
 
 
+LAST_STORE: dict = {}
+
+
 def make_open(store: dict, existing: Optional[Dict[str, str]] = None):
     """existing: content that is already at a path when the session starts (an earlier session's log).  Mode 'w' truncates it,
     mode 'a' keeps it - as a real file system does."""
+    global LAST_STORE
+    LAST_STORE = store
+
     def _open(path, mode='r', *a, **k):
         if 'w' not in mode and 'a' not in mode and 'x' not in mode:
             raise prims.InternalError(f'harness open() used for reading {path}')
